@@ -151,7 +151,9 @@ func genShape(r *rand.Rand) shape {
 }
 
 func genNode(r *rand.Rand, name string) *corev1.Node {
-	l := map[string]string{"zone": []string{"a", "b", "c"}[r.Intn(3)]}
+	// (every node carries app=agent: an ExtendedDaemonSet whose spec.selector - a NODE selector for this controller,
+	// although DaemonSet-shaped manifests set it to the pod labels - is app=agent then still targets all of them)
+	l := map[string]string{"zone": []string{"a", "b", "c"}[r.Intn(3)], "app": "agent"}
 	if r.Intn(4) != 0 {
 		l["role"] = "agent"
 	}
@@ -307,6 +309,10 @@ func (e *Sim) Run(ctx *core.Ctx, idx int) {
 			if e.P.MultiEDS && r.Intn(2) == 0 {
 				w.NewLookalikePod(ns, "old-agent", map[string]string{"app": "old-agent"}, fmt.Sprintf("n%d", r.Intn(2)))
 			}
+		}
+		if e.P.MultiEDS && len(refs) == 0 && r.Intn(3) == 0 {
+			// a manifest shaped like a DaemonSet's: spec.selector repeats the pod template's labels
+			ed.Spec.Selector = &metav1.LabelSelector{MatchLabels: map[string]string{"app": "agent"}}
 		}
 		w.CreateEDS(ed)
 		refs = append(refs, edsRef{ns, name})
